@@ -436,8 +436,42 @@ func (w *idxWalker) killAll(fs []scandfa.Fact, terms []string) []scandfa.Fact {
 // factsOf: the linear facts of a condition, plus len(x.F) >= 1 for every
 // conjunct `x.F != nil` on a slice field F that the package only ever assigns
 // nil or a provably non-empty slice (nonEmptyOrNil, computed in a first pass).
+// byteConvFacts: every conversion int(x) (any integer type wider than 8 bits) of an 8-bit unsigned x inside e
+// lies in [0, 255].
+func (w *idxWalker) byteConvFacts(e ast.Expr) []scandfa.Fact {
+	var out []scandfa.Fact
+	ast.Inspect(e, func(n ast.Node) bool {
+		call, ok := n.(*ast.CallExpr)
+		if !ok || len(call.Args) != 1 {
+			return true
+		}
+		tv, ok := w.info.Types[call.Fun]
+		if !ok || !tv.IsType() {
+			return true
+		}
+		to, ok := tv.Type.Underlying().(*types.Basic)
+		if !ok || to.Info()&types.IsInteger == 0 || to.Kind() == types.Int8 || to.Kind() == types.Uint8 {
+			return true
+		}
+		from := w.info.TypeOf(call.Args[0])
+		if from == nil {
+			return true
+		}
+		fb, ok := from.Underlying().(*types.Basic)
+		if !ok || fb.Kind() != types.Uint8 {
+			return true
+		}
+		if lin, ok := w.pr.Lin(call); ok {
+			out = append(out, scandfa.Fact{E: lin}, scandfa.Fact{E: scandfa.Const(255).Minus(lin)})
+		}
+		return true
+	})
+	return out
+}
+
 func (w *idxWalker) factsOf(cond ast.Expr, truth bool) []scandfa.Fact {
 	fs := w.pr.FactsOf(cond, truth)
+	fs = append(fs, w.byteConvFacts(cond)...)
 	var scan func(e ast.Expr, truth bool)
 	scan = func(e ast.Expr, truth bool) {
 		switch x := unparenE(e).(type) {
@@ -1125,6 +1159,7 @@ func (w *idxWalker) define(l, r ast.Expr, facts []scandfa.Fact) []scandfa.Fact {
 		facts = append(facts, scandfa.Fact{E: a.Minus(b)}, scandfa.Fact{E: b.Minus(a)})
 	}
 	r = unparenE(r)
+	facts = append(facts, w.byteConvFacts(r)...)
 	if lt := w.info.TypeOf(l); lt != nil {
 		if b, ok := lt.Underlying().(*types.Basic); ok && b.Info()&types.IsInteger != 0 {
 			if e, ok := w.pr.Lin(r); ok && !e.Mentions(t) {
